@@ -162,6 +162,19 @@ def make_file(layout, prefix=""):
     return NcFile(vs, prefix)
 
 
+ll_lon = z3.Function("xy2ll_lon", z3.RealSort(), z3.RealSort(), z3.RealSort())
+ll_lat = z3.Function("xy2ll_lat", z3.RealSort(), z3.RealSort(), z3.RealSort())
+
+
+def xy2ll_model(interp, X, Y):
+    """grid.xy2ll as the output module sees it (its own contract: contracts/sample.XY2LL): pointwise in the position."""
+    fx, fy = X.fn, Y.fn
+    return (Arr(X.shape, lambda k: ll_lon(fx(k), fy(k)), "real"), Arr(X.shape, lambda k: ll_lat(fx(k), fy(k)), "real"))
+
+
+xy2ll_model._pyvc_model = True
+
+
 class FileNames(ModelObject):
     """The filename generator: ghost counter of names handed out."""
 
@@ -218,13 +231,21 @@ class WritePV(Spec):
     properties = ("C06", "C07", "C08")
     inline = ("ladim.state.State.__getattr__", "ladim.state.State.__getitem__", "ladim.state.State.__len__")
 
-    def __init__(self, layout="sparse"):
+    def __init__(self, layout="sparse", time_typed=False):
         self.layout = layout
-        self.name = f"Output.write_particle_variables[{layout}]"
+        self.time_typed = time_typed
+        self.name = f"Output.write_particle_variables[{layout}{', time-typed particle variable' if time_typed else ''}]"
 
     def inputs(self, cx):
         out = make_output(cx, self.layout)
-        return Args(self=out, state=out.attrs["modules"]["state"])
+        st = out.attrs["modules"]["state"]
+        if self.time_typed:
+            from pyvc.numpy_model import DType
+
+            npid = st.attrs["npid"]
+            st.attrs["variables"]["xp"] = sym_array("st_xp_time", (npid,), "int")
+            st.attrs["dtypes"]["xp"] = DType("int", "M8[s]")
+        return Args(self=out, state=st)
 
     def requires(self, cx, a):
         from .state import wf_items
@@ -237,13 +258,19 @@ class WritePV(Spec):
         st = a.state
         npid = st.attrs["npid"]
         nc = a.self.attrs["nc"]
+        ref = a.self.attrs["timer"].attrs["reference_time"]
         for v in PARTICLE_OUT:
             arr = st.attrs["variables"][v]
-            nc.variables[v].pv_setitem(cx, slice(None, npid), Arr((npid,), arr.fn, arr.kind))
+            fn = arr.fn
+            if self.time_typed:
+                # time-typed variables are stored as seconds since the reference time
+                nc.variables[v].pv_setitem(cx, slice(None, npid), Arr((npid,), lambda p: z3.ToReal(fn(p) - ref), "real"))
+            else:
+                nc.variables[v].pv_setitem(cx, slice(None, npid), Arr((npid,), fn, arr.kind))
         return None
 
     def compare_roots(self, a, b, result):
-        return [("C06: particle variables stored at index pid for every particle released so far", a.self.attrs["nc"], b.self.attrs["nc"])]
+        return [("C06: particle variables stored at index pid for every particle released so far" + (" (time-typed: seconds since the reference time)" if self.time_typed else ""), a.self.attrs["nc"], b.self.attrs["nc"])]
 
 
 class CreateNetcdf(Spec):
@@ -277,9 +304,10 @@ class Write(Spec):
     properties = ("C06", "C07", "C05", "C14")
     inline = ("ladim.state.State.__getattr__", "ladim.state.State.__getitem__", "ladim.state.State.__len__")
 
-    def __init__(self, layout):
+    def __init__(self, layout, lonlat=False):
         self.layout = layout
-        self.name = f"Output.write[{layout}]"
+        self.lonlat = lonlat
+        self.name = f"Output.write[{layout}{', lon/lat requested' if lonlat else ''}]"
         self.callees = {
             "ladim.state.State.compactify": Compactify(),
             "ladim.out_netcdf.Output.write_particle_variables": WritePV(layout),
@@ -289,6 +317,11 @@ class Write(Spec):
 
     def inputs(self, cx):
         out = make_output(cx, self.layout)
+        if self.lonlat:
+            out.attrs["lonlat"] = True
+            out.attrs["xy2ll"] = xy2ll_model
+            for nm in ("lon", "lat"):
+                out.attrs["nc"].variables[nm] = NcVar(nm, 1 if self.layout == "sparse" else 2)
         return Args(self=out, state=out.attrs["modules"]["state"])
 
     def call_args(self, a):
@@ -311,7 +344,7 @@ class Write(Spec):
         ]
         if self.layout == "sparse":
             items.append(("cursor invariant: particle_count holds local_record_count records", nc.variables["particle_count"].extent == t["local_record_count"]))
-            for v in INSTANCE_OUT:
+            for v in INSTANCE_OUT + (["lon", "lat"] if self.lonlat else []):
                 items.append((f"cursor invariant: {v} holds local_instance_count instances", nc.variables[v].extent == t["local_instance_count"]))
         if self.layout == "dense":
             items.append(("dense layout: the state is never compactified, index == pid", ForallP(st.attrs["variables"]["pid"].shape[0], lambda k: st.attrs["variables"]["pid"].fn(k) == k)))
@@ -334,6 +367,10 @@ class Write(Spec):
             nc.variables["particle_count"].pv_setitem(cx, lrc, count)
             for name in INSTANCE_OUT:
                 nc.variables[name].pv_setitem(cx, slice(start, V.s_binop("+", start, count)), v[name])
+            if self.lonlat:
+                fx, fy = v["X"].fn, v["Y"].fn
+                nc.variables["lon"].pv_setitem(cx, slice(start, V.s_binop("+", start, count)), Arr((count,), lambda k: ll_lon(fx(k), fy(k)), "real"))
+                nc.variables["lat"].pv_setitem(cx, slice(start, V.s_binop("+", start, count)), Arr((count,), lambda k: ll_lat(fx(k), fy(k)), "real"))
             t["instance_count"] = V.s_binop("+", t["instance_count"], count)
             t["local_instance_count"] = V.s_binop("+", start, count)
         else:
@@ -506,4 +543,4 @@ class OutputInitRecords(Spec):
         return out
 
 
-OUTPUT_UNITS = [Write("sparse"), Write("dense"), WritePV("sparse"), OutputUpdate(), OutputInitRecords(True), OutputInitRecords(False)]
+OUTPUT_UNITS = [Write("sparse"), Write("dense"), Write("sparse", lonlat=True), WritePV("sparse"), WritePV("sparse", time_typed=True), OutputUpdate(), OutputInitRecords(True), OutputInitRecords(False)]
